@@ -80,8 +80,8 @@ FILES = [
 ]
 RULE = (
     "operator views: every class of harness/opgrid.py + derived/Jacobian/TVNorm-auxiliary/generic operators "
-    "(harness/jaxpr_ops.py); quick = seeded sample of configurations per class (every class) with eval, adj and two more "
-    "views, thorough = whole grid with eval, adj, gram, T, H, conj, gram_op, T.adj, H.adj. One case = one numerical probe "
+    "(harness/jaxpr_ops.py); quick = seeded sample of configurations per class (every class) with eval, adj and one more "
+    "seeded view, thorough = whole grid with eval, adj, gram, T, H, conj, gram_op, T.adj, H.adj. One case = one numerical probe "
     "of one view; distinct by (class, view, configuration); non-trivial when the view's output on the probe is not "
     "identically zero. Synthetic programs / functions: distinct by their IR; non-trivial when input-dependent."
 )
@@ -192,7 +192,7 @@ def _lin_defect(lhs, rhs, nan_ok=False, relative=False):
     return worst
 
 
-def _inplace_sequence(fn, shp, dt, x, y, a, b, tol):
+def _inplace_sequence(fn, shp, dt, x, y, a, b, tol, fresh_results=None):
     """History probe with object-identity reuse: ONE NumPy buffer per leaf is handed to the operator again and again
     and overwritten IN PLACE between the calls (x, y, a x + b y, 0, then x and 2 x); every result must equal the result
     on a fresh array with the same values, and the buffer results must satisfy the property themselves.  An operator
@@ -237,8 +237,11 @@ def _inplace_sequence(fn, shp, dt, x, y, a, b, tol):
     def enc(ls):
         return [{"shape": list(np.shape(l)), "re": np.real(l).ravel().tolist(), "im": (np.imag(l).ravel().tolist() if np.iscomplexobj(l) else None)} for l in ls]
 
+    have = dict(fresh_results or {})  # evaluations on fresh arrays already taken by the caller (x, y, a x + b y, 0)
+    if "x" in have:
+        have["x again"] = have["x"]
     for step, vals in fresh.items():
-        ref = _apply(fn, shp, vals)
+        ref = have[step] if step in have else _apply(fn, shp, vals)
         d = _lin_defect(got[step], ref)
         if d > 8 * tol:
             return {"what": f"A(reused buffer holding {step}) != A(fresh array with the same values)", "step": step, "defect": d, "tol": tol, "mode": "inplace",
@@ -255,7 +258,7 @@ LONG_HISTORY_CLASSES = {"NoJit", "XRayTransform3D", "AbelTransform", "OutsideLin
 LONG_HISTORY_CALLS = 14
 
 
-def _long_history(fn, shp, dt, rng, x, y, a, b, tol):
+def _long_history(fn, shp, dt, rng, x, y, a, b, tol, fresh_results=None):
     """Longer call histories for operators whose Python code runs at every call: a seeded schedule of
     LONG_HISTORY_CALLS calls over TWO reused NumPy buffers and fresh jax arrays, holding one of six values
     (x, y, a x + b y, 0, 2 x, -y), buffers overwritten in place, values revisited (the same value in another object, the
@@ -266,7 +269,8 @@ def _long_history(fn, shp, dt, rng, x, y, a, b, tol):
     if ops.is_nested(shp):
         return None
     vals = {"x": x[0], "y": y[0], "a x + b y": (a * x[0] + b * y[0]).astype(dt), "0": np.zeros_like(x[0]), "2 x": (2 * x[0]).astype(dt), "-y": (-y[0]).astype(dt)}
-    ref = {k: _apply(fn, shp, [v])[0] for k, v in vals.items()}
+    have = fresh_results or {}
+    ref = {k: (have[k][0] if k in have else _apply(fn, shp, [v])[0]) for k, v in vals.items()}
     bufs = {"A": np.array(x[0], copy=True), "B": np.array(y[0], copy=True)}
     names = list(vals)
     trail = []
@@ -328,13 +332,13 @@ def probe(fn, shp, dt, rng, field, mode="random", info=None, long_history=False)
     if any(np.any(np.asarray(p) != 0) for p in A0):
         return {"what": "A(0) != 0", "A0": enc(A0), "mode": "zero"}, nontrivial
     if mode in ("random", "inplace"):
-        bad, status = _inplace_sequence(fn, shp, dt, x, y, a, b, tol)
+        bad, status = _inplace_sequence(fn, shp, dt, x, y, a, b, tol, {"x": Ax, "y": Ay, "a x + b y": Az, "0": A0})
         if info is not None:
             info["inplace"] = status
         if bad is not None:
             return bad, nontrivial
         if long_history and status.startswith("ok"):
-            bad = _long_history(fn, shp, dt, rng, x, y, a, b, tol)
+            bad = _long_history(fn, shp, dt, rng, x, y, a, b, tol, {"x": Ax, "y": Ay, "a x + b y": Az, "0": A0})
             if info is not None:
                 info["history"] = "stale" if bad else "ok"
             if bad is not None:
@@ -428,6 +432,10 @@ def generate(ctx):
         probe_time[0] += time.time() - t
 
     instances = {}
+    cache = tr.TranslationCache(FILES_ALL_SCICO, ctx.thorough)
+    # decisions and inputs that exist only for freshly traced programs come from a generator of their own (seeded by
+    # VERIF_SEED), so that the main stream - configurations, views, probe data - is the same whatever the cache holds
+    aux = np.random.Generator(np.random.PCG64([int(getattr(ctx, "seed", 0)), 7919]))
     fid_time = [0.0]
     fid_seen = set()
     fam_of = {}
@@ -443,23 +451,32 @@ def generate(ctx):
 
         import jaxpr_family as fam
 
+        if prog.exec is None:  # translation taken from the cross-run cache: nothing to execute (the re-traced share is)
+            if rec.get("in_family") is None:
+                rec["in_family"] = fam_of.get(prog.key())
+            return
         special = prog.unrolled > 0 or any(p.split("#")[0] in (ir.PMAP_IN, ir.PMAP_OUT, "gather[fill]", ir.SCAN_INDEX) for p in prog.prims)
         key = prog.key()
         if key in fid_seen:
             rec["in_family"] = fam_of.get(key)
+            cache.annotate(rec["cls"], rec["config"], rec["view"], in_family=fam_of.get(key))
             return
         # is every equation an instance of the family whose class facts are PROVED (Proofs/JaxprFamily.lean)?
         fam_of[key] = rec["in_family"] = fam.program_in_family(prog)
+        cache.annotate(rec["cls"], rec["config"], rec["view"], in_family=fam_of[key])
         if not fam_of[key]:
             for ex in prog.exec:
                 if ex[0] != "lit" and not fam.supported(ex[1]):
                     ctx.count("outside-proved-family:" + ex[1]["name"].split("#")[0])
-        if not special and ctx.rng.random() > (FIDELITY_SHARE_THOROUGH if ctx.thorough else FIDELITY_SHARE_QUICK):
+        share = FIDELITY_SHARE_THOROUGH if ctx.thorough else FIDELITY_SHARE_QUICK
+        if rec.get("cache") == "retraced":  # warm cache: only the re-traced share can be executed - keep the overall share
+            share = min(1.0, share / (RETRACE_SHARE_THOROUGH if ctx.thorough else RETRACE_SHARE_QUICK))
+        if not special and aux.random() > share:
             return
         fid_seen.add(key)
         t = time.time()
         try:
-            x = [_rand_leaf(ctx.rng, s, dt, "random") for s in ops.leaf_shapes(shp)]
+            x = [_rand_leaf(aux, s, dt, "random") for s in ops.leaf_shapes(shp)]
             ref = _apply(fn, shp, x)
             got = [np.asarray(v) for v in tb.ir_eval(prog, x)]
             d = _lin_defect(got, ref)
@@ -479,7 +496,9 @@ def generate(ctx):
             rec["fidelity"] = {"raised": repr(e)[:300]}
         fid_time[0] += time.time() - t
 
-    records, programs, mods, index, stats = tr.generate(ctx.rng, ctx.thorough, per_class, nb, ctx.hist, known, on_view, instances, on_program)
+    records, programs, mods, index, stats = tr.generate(ctx.rng, ctx.thorough, per_class, nb, ctx.hist, known, on_view, instances, on_program, cache,
+                                                        retrace=lambda: aux.random() < (RETRACE_SHARE_THOROUGH if ctx.thorough else RETRACE_SHARE_QUICK))
+    stats["translation_cache"] = cache.stats()
     stats["fidelity_s"] = round(fid_time[0], 1)
     stats["primitive_instances"] = len(instances)
     _STATE["instances"] = instances
@@ -498,8 +517,14 @@ def generate(ctx):
     ctx.extra["scope"] = (
         "whole configuration grid of harness/opgrid.py + harness/jaxpr_ops.py extras: eval and adj of every configuration, "
         "all nine views of a seeded quarter" if ctx.thorough else
-        f"{PER_CLASS_QUICK} seeded configurations per class (+ 'must' configurations and the complete hand-made grids), eval, adj and two seeded views"
+        f"{PER_CLASS_QUICK} seeded configurations per class (+ 'must' configurations and the complete hand-made grids), eval, adj and one seeded view"
     )
+    # source-derived class table (round 4): every LinearOperator subclass of the package is enumerated or pinned
+    import jaxpr_translate as jt
+
+    cmod, src, missing, stale = jt.emit(common.REPO, ops.all_classes())
+    ctx.extra["linear_operator_classes"] = {"in_source": len(src), "not_enumerated_and_not_pinned": missing, "stale_pins_or_claims": stale, "pinned": sorted(jt.EXCLUDED)}
+    mods = list(mods) + [(cmod, f"{len(src)} LinearOperator classes of the source: enumerated or pinned" + (f"; MISSING {missing} STALE {stale}" if missing or stale else ""))]
     return mods
 
 
@@ -803,7 +828,7 @@ def _synthetic_jax(ctx, model):
 
     lin, nonlin = _jax_blocks()
     rng = ctx.rng
-    n = ctx.n(40, 250)
+    n = ctx.n(28, 250)
     for k in range(n):
         cplx = bool(rng.integers(0, 2))
         dt = np.complex128 if cplx else np.float64
@@ -834,7 +859,11 @@ def _synthetic_jax(ctx, model):
 
         xr = _rand_leaf(rng, (6,), dt, "random")
         with np.errstate(all="ignore"):
-            dfid = _lin_defect([np.asarray(v) for v in tb.ir_eval(prog, [xr])], [np.asarray(f(jnp.asarray(xr)))], nan_ok=True)
+            try:
+                dfid = _lin_defect([np.asarray(v) for v in tb.ir_eval(prog, [xr])], [np.asarray(f(jnp.asarray(xr)))], nan_ok=True)
+            except Exception as e:  # noqa: BLE001
+                dfid = float("nan")
+                ctx.count("synthetic-jax-fidelity-raised:" + type(e).__name__)
         ctx.count("synthetic-jax-fidelity-checked")
         if not dfid <= 1e-9:
             ctx.disagree("jaxpr.translate.fidelity", {"blocks": names, "complex": cplx, "x": [complex(v).__repr__() for v in xr]}, f"defect {dfid}", "IR == function",
@@ -879,9 +908,14 @@ def _fidelity(ctx):
 
 # --- the trusted primitive table, entry by entry (harness/jaxpr_table.py) -----------------------------------------
 
-TABLE_INSITU_QUICK = 180
+TABLE_INSITU_QUICK = 130
 TABLE_INSITU_THOROUGH = 2000
 FAMILY_QUICK = 250
+RETRACE_SHARE_QUICK = 0.25  # share of the cached translations that is re-traced anyway (and compared with the cache)
+RETRACE_SHARE_THOROUGH = 0.15
+FILES_ALL_SCICO = "scico"  # the translation cache is keyed on every source file of the package
+FAMILY_PROGRAMS_QUICK = 80
+FAMILY_PROGRAMS_THOROUGH = 250
 FAMILY_THOROUGH = 1200
 
 
@@ -978,13 +1012,13 @@ def _family_programs(ctx, model):
     views_in = sum(1 for r in recs if r.get("in_family"))
     ctx.count("programs-proved-outright", nin)
     ctx.count("programs-proved-given-primitive-table", len(progs) - nin)
-    import time
-
-    t0, budget = time.time(), (240.0 if ctx.thorough else 30.0)
-    for e in sorted(_STATE.get("fam_runs", []), key=lambda e: len(e["prog"].eqns)):
+    # no time budget (a verdict or a count must never depend on the load): the work is bounded by the size guard of
+    # `run_program` (MAX_OUT / MAX_PROGRAM_TERMS, counted as unsupported:too-large) and by a fixed number of programs
+    limit = FAMILY_PROGRAMS_THOROUGH if ctx.thorough else FAMILY_PROGRAMS_QUICK
+    for n_run, e in enumerate(_STATE.get("fam_runs", [])):
         r, prog = e["rec"], e["prog"]
-        if time.time() - t0 > budget:
-            ctx.count("family-program-skipped-by-time-budget")
+        if n_run >= limit:
+            ctx.count("family-program-beyond-fixed-limit")
             continue
         prog.exec = e["exec"]
         case = {"cls": r["cls"], "config": r["config"], "view": r["view"]}
@@ -992,6 +1026,10 @@ def _family_programs(ctx, model):
             got = fam.run_program(prog, e["x"], model, [(np.shape(t), np.asarray(t).dtype) for t in e["ref"]])
         except fam.Unsupported as ex:
             ctx.count("family-program-unsupported:" + str(ex).split(" ")[0])
+            prog.exec = None
+            continue
+        except Exception as ex:  # noqa: BLE001  (table builder / driver met something it does not model: counted, never a crash)
+            ctx.count("family-program-unsupported:exception-" + type(ex).__name__)
             prog.exec = None
             continue
         prog.exec = None
@@ -1032,7 +1070,10 @@ def _family_tie(ctx, model):
         seen.add(sig)
         if source == "insitu" and done >= limit:
             break
-        st, d = fam.compare(inst, rng, model) if inst["cls"] == ir.LINALL else fam.compare_any(inst, rng, model)
+        try:
+            st, d = fam.compare(inst, rng, model) if inst["cls"] == ir.LINALL else fam.compare_any(inst, rng, model)
+        except Exception as e:  # noqa: BLE001  (descriptor builder met parameters it does not model: outside this stream, counted)
+            st, d = "unsupported:exception-" + type(e).__name__, None
         name = inst["name"].split("#")[0]
         if st == "ok":
             ctx.count(f"family-tie-ok:{name}")
@@ -1130,6 +1171,9 @@ def search(ctx, model, why):
     index = _STATE.get("index", {})
     oracle = oracle_for(ctx.rng)
     todo = []
+    if why is not None and why.get("module", "").endswith("JaxprClasses"):
+        ctx.count("search:class-table-obligation-has-no-input")
+        return None  # a class of the source outside the enumeration: there is no operator to probe yet
     if why is not None:
         for en in index.get(why["module"], []):
             if en["kind"] == "failure":
